@@ -328,6 +328,11 @@ def thrift_sem():
         ("cchain", b("i32"), "C_INT2", vI("I32", 42)), ("cdbl", b("double"), "C_DBL", vDouble(5)), ("cneg", b("i64"), "C_NEG", vI("I64", -77)),
         ("tden", ref("TdColor"), "Color.Blue", vI("I32", 7)),
         ("ssq", b("string"), "'single'", vBin("single")),
+        # escape sequences in string / binary literals (kept as written by the parser, interpreted by rustc)
+        ("sesc_n", b("string"), '"line1\\nline2"', vBin("line1\nline2")), ("sesc_t", b("string"), '"two\\n\\nlines\\n"', vBin("two\n\nlines\n")),
+        ("sesc_q", b("string"), '"q\\"uote"', vBin('q"uote')), ("sesc_bs", b("string"), '"back\\\\slash"', vBin("back\\slash")),
+        ("sesc_sq", b("string"), "'it\\'s'", vBin("it's")), ("besc", b("binary"), '"a\\nb"', vBin("a\nb")),
+        ("lesc", lst(b("string")), '["x\\ny", "p\\\\q"]', vList("Bin", [vBin("x\ny"), vBin("p\\q")])),
         # repeated elements: a list keeps them (and their order), a set does not care
         ("ldup", lst(b("i32")), "[1, 1, 2, 1]", vList("I32", [vI("I32", 1), vI("I32", 1), vI("I32", 2), vI("I32", 1)])),
         ("lsdup", lst(b("string")), '["a", "b", "b", "a"]', vList("Bin", [vBin("a"), vBin("b"), vBin("b"), vBin("a")])),
@@ -442,8 +447,10 @@ STD_NAMES = ["Option", "Vec", "String", "Box", "Result", "Default", "Clone", "De
 class RawDoc:
     """A document given as text (one or more files); label names the construct it exercises."""
 
-    def __init__(self, name, files, main=None, label=None, mode="thrift", dedup=None):
+    def __init__(self, name, files, main=None, label=None, mode="thrift", dedup=None, touch=None, flags=None):
         self.dedup = dedup or []
+        self.touch = touch or {}  # {relative file: [item names]} for Builder::touch
+        self.flags = flags or []  # extra generator flags this document is always compiled with
         self.name = name
         self.files = files  # {relative path: text}
         self.main = main or list(files.keys())[0]
@@ -712,6 +719,19 @@ struct Model { 1: string b, 2: optional multi_v1.Model old, 3: list<multi_v1.Onl
           "ds_a.thrift": "namespace rs ds.model\n\nstruct Common { 1: i32 a, 2: string b }\nstruct OnlyA { 1: Common c }\n",
           "ds_b.thrift": "namespace rs ds.model\n\nstruct Common { 1: i32 a, 2: string b }\nstruct OnlyB { 1: Common c }\n"}
     docs.append(RawDoc("dedup_shared", ds, main="ds_main.thrift", label="dedup-same-item-twice-in-one-module", dedup=["Common"]))
+    # ignore_unused + Builder::touch naming items of several files; many items (and enum variants)
+    # in between so that item ids are spread widely
+    tm = {"tm_main.thrift": 'include "tm_a.thrift"\ninclude "tm_b.thrift"\ninclude "tm_c.thrift"\nnamespace rs tm.main\n\n'
+          "struct Root { 1: optional tm_a.A1 a, 2: optional tm_b.B1 b }\nservice TmSvc { Root get(1: Root r) }\n"}
+    for fn_, pre in (("tm_a", "A"), ("tm_b", "B"), ("tm_c", "C")):
+        body = "namespace rs tm.%s\n\n" % pre.lower()
+        for i in range(1, 9):
+            body += "enum %sE%d {\n%s\n}\n" % (pre, i, "\n".join("    V%d = %d," % (j, j) for j in range(40)))
+            body += "struct %s%d { 1: optional i32 x, 2: optional %sE%d e, 3: optional string s }\n" % (pre, i, pre, i)
+        tm[fn_ + ".thrift"] = body
+    docs.append(RawDoc("touch_multi", tm, main="tm_main.thrift", label="ignore-unused-with-touched-items-of-several-files",
+                       touch={"tm_a.thrift": ["A3", "A7", "AE5"], "tm_b.thrift": ["B2", "B8"], "tm_c.thrift": ["C1", "C4", "C6", "CE2"]},
+                       flags=["--ignore-unused"]))
     # services: oneway, void, extends within the file, many args, no-arg, annotations on methods
     body = """struct R { 1: i32 a }
 exception E1 { 1: string m }
